@@ -148,6 +148,10 @@ def returns_flag(b):
         o["ts"][1].get("n") == "bool"
 
 
+WHOLE_VALUE_OBSERVERS = ("::bit_len", "::leading_zeros", "::is_zero", "::const_is_zero", "PartialEq>::eq", "PartialEq::ne",
+                         "PartialOrd>::partial_cmp", "Ord>::cmp", "::byte_len", "::count_ones", "::checked_log2")
+
+
 def flag(ctx, config="all", files=None):
     rep = Report("R-FLAG", "in every function that promises an exact overflow flag: (1) no carry/overflow indicator "
                  "returned by a callee is dropped; (2) if the result is masked, the flag depends on a comparison with "
@@ -268,6 +272,11 @@ def flag(ctx, config="all", files=None):
                     k2 = "%s|mask-discard" % key
                     if MASK_CONST in bw.cmp_consts or any(c.endswith("::MASK") for c in bw.cmp_consts):
                         rep.ok(k2, v.where(bj), "flag depends on a comparison with MASK")
+                    elif any(c.endswith(WHOLE_VALUE_OBSERVERS) for c in bw.local_calls):
+                        # e.g. `self.leading_zeros() < rhs`: the loss is computed from the whole value beforehand;
+                        # whether that computation is the right one is arithmetic
+                        rep.ok(k2, v.where(bj), "flag is computed from a whole-value observation (%s): not decided" % ", ".join(
+                            sorted(c.split("::")[-1] for c in bw.local_calls if c.endswith(WHOLE_VALUE_OBSERVERS))))
                     else:
                         rep.violation(k2, v.where(bj), "%s masks its result but the returned flag does not depend on a "
                                       "comparison of the top limb with MASK: bits shifted/carried into positions >= BITS "
@@ -297,10 +306,6 @@ def flag(ctx, config="all", files=None):
         rep.floor("masked_flag_paths", n2, 4)
         rep.floor("windowed_flag_paths", n3, 2)
     return rep
-
-
-WHOLE_VALUE_OBSERVERS = ("::bit_len", "::leading_zeros", "::is_zero", "::const_is_zero", "PartialEq>::eq", "PartialEq::ne",
-                         "PartialOrd>::partial_cmp", "Ord>::cmp", "::byte_len", "::count_ones", "::checked_log2")
 
 
 def lowlimb(ctx, config="all"):
